@@ -6,7 +6,9 @@
 package c01
 
 import (
+	"crypto/elliptic"
 	"fmt"
+	"math/big"
 	"strings"
 	"testing"
 
@@ -67,7 +69,7 @@ type alteration struct {
 }
 
 func TestVerifKEM(t *testing.T) {
-	lib.Mandatory("roundtrip", "altered", "implicit-rejection", "error-on-altered", "exempt-bit-skips")
+	lib.Mandatory("roundtrip", "altered", "implicit-rejection", "error-on-altered", "exempt-bit-skips", "negated-point-alterations", "handout-capacity-written")
 	ss := allSchemes()
 	nk := lib.Scale(3, 8)
 	ne := lib.Scale(2, 4)
@@ -149,6 +151,25 @@ func oneCase(s kem.Scheme, k, e int) {
 	}
 	if len(ct) != s.CiphertextSize() || len(shared) != s.SharedKeySize() {
 		viol(s, "size", "what", "ct/ss", "ct", len(ct), "ss", len(shared))
+	}
+	// the ciphertext and the secret are two values: writing to one of them up
+	// to its capacity (append(ct, payload...)) must leave the other one alone
+	{
+		ctK, ssK := lib.Clone(ct), lib.Clone(shared)
+		x := ct[:cap(ct)]
+		for i := len(ct); i < len(x); i++ {
+			x[i] ^= 0xEE
+		}
+		y := shared[:cap(shared)]
+		for i := len(shared); i < len(y); i++ {
+			y[i] ^= 0xEE
+		}
+		lib.Count("handout-capacity-written")
+		if lib.SharesMemory(ct, shared) || !lib.Eq(ct, ctK) || !lib.Eq(shared, ssK) {
+			viol(s, "ciphertext-and-secret-share-memory", "seed", seed, "eseed", eseed, "cap_ct", cap(ct), "cap_ss", cap(shared),
+				"secret_changed", !lib.Eq(shared, ssK), "ciphertext_changed", !lib.Eq(ct, ctK))
+			ct, shared = ctK, ssK
+		}
 	}
 	got, err, p := decaps(s, sk, ct, "honest")
 	if p != nil || err != nil || !lib.Eq(got, shared) {
@@ -236,6 +257,10 @@ func oneCase(s kem.Scheme, k, e int) {
 	if octx != nil {
 		alts = append(alts, alteration{"other-key", octx, nil})
 	}
+	alts = append(alts, shareSubstitutions(ct)...)
+	neg := negatedPoints(ct)
+	alts = append(alts, neg...)
+	lib.CountN("negated-point-alterations", len(neg))
 
 	ir, zoff, zlen := irInfo(name)
 	var skz kem.PrivateKey
@@ -287,8 +312,18 @@ func oneCase(s kem.Scheme, k, e int) {
 			}
 			continue
 		}
+		if len(g1) != s.SharedKeySize() {
+			viol(s, "altered-decaps-size", "class", a.class, "ct", a.ct, "len", len(g1), "want", s.SharedKeySize(), "seed", seed, "eseed", eseed)
+			continue
+		}
 		if exempt {
 			lib.Count("exempt-bit-skips")
+			continue
+		}
+		if a.class == "negated-point" && name == "P256Kyber768Draft00" {
+			// the raw ECDH x-coordinate is the P-256 half of this hybrid's secret:
+			// the sign of y is not bound into it (observed, not judged)
+			lib.Count("observed:negated-point-not-bound-in-raw-ecdh-hybrid")
 			continue
 		}
 		if lib.Eq(g1, shared) {
@@ -317,6 +352,75 @@ func oneCase(s kem.Scheme, k, e int) {
 			}
 		}
 	}
+}
+
+// shareSubstitutions: the honest ciphertext with every candidate position of
+// a Diffie-Hellman share (32 / 56 bytes at either end, behind an ML-KEM-768
+// ciphertext, ...) replaced by a value the DH function refuses or maps to zero
+// (0, 1, p-1, p, p+1, all-ones): the component then reports an error, which
+// the combiner has to pass on (or, X-Wing, hash into another secret).
+func shareSubstitutions(ct []byte) []alteration {
+	n := len(ct)
+	var out []alteration
+	le := func(v *big.Int, l int) []byte {
+		b := v.FillBytes(make([]byte, l))
+		for i, j := 0, l-1; i < j; i, j = i+1, j-1 {
+			b[i], b[j] = b[j], b[i]
+		}
+		return b
+	}
+	p25 := new(big.Int).Sub(new(big.Int).Lsh(big.NewInt(1), 255), big.NewInt(19))
+	p448 := new(big.Int).Sub(new(big.Int).Sub(new(big.Int).Lsh(big.NewInt(1), 448), new(big.Int).Lsh(big.NewInt(1), 224)), big.NewInt(1))
+	seen := map[[2]int]bool{}
+	for _, off := range []int{0, n - 32, n - 56, 1088, 32, 56} {
+		for _, l := range []int{32, 56} {
+			if off < 0 || off+l > n || seen[[2]int{off, l}] {
+				continue
+			}
+			seen[[2]int{off, l}] = true
+			p := p25
+			if l == 56 {
+				p = p448
+			}
+			ones := make([]byte, l)
+			for i := range ones {
+				ones[i] = 0xFF
+			}
+			vals := [][]byte{make([]byte, l), le(big.NewInt(1), l), le(new(big.Int).Sub(p, big.NewInt(1)), l), le(p, l), le(new(big.Int).Add(p, big.NewInt(1)), l), ones}
+			for _, v := range vals {
+				c := lib.Clone(ct)
+				copy(c[off:], v)
+				out = append(out, alteration{"share-substituted", c, nil})
+			}
+		}
+	}
+	return out
+}
+
+// negatedPoints: wherever the ciphertext holds an uncompressed point of
+// P-256 / P-384 / P-521 (0x04 || x || y on the curve), the same ciphertext
+// with y replaced by p - y: a valid point with the same Diffie-Hellman value,
+// told apart only by what the KEM hashes next to it.
+func negatedPoints(ct []byte) []alteration {
+	var out []alteration
+	for _, c := range []elliptic.Curve{elliptic.P256(), elliptic.P384(), elliptic.P521()} {
+		l := (c.Params().BitSize + 7) / 8
+		for off := 0; off+1+2*l <= len(ct); off++ {
+			if ct[off] != 4 {
+				continue
+			}
+			x := new(big.Int).SetBytes(ct[off+1 : off+1+l])
+			y := new(big.Int).SetBytes(ct[off+1+l : off+1+2*l])
+			if x.Cmp(c.Params().P) >= 0 || y.Cmp(c.Params().P) >= 0 || y.Sign() == 0 || !c.IsOnCurve(x, y) {
+				continue
+			}
+			ny := new(big.Int).Sub(c.Params().P, y)
+			a := lib.Clone(ct)
+			ny.FillBytes(a[off+1+l : off+1+2*l])
+			out = append(out, alteration{"negated-point", a, nil})
+		}
+	}
+	return out
 }
 
 // boundaryBits lists first/last bits and, for ciphertexts with a DH share,
